@@ -121,7 +121,7 @@ def s2(ck, an):
     for f in an.functions():
         for e in an.fa(f).effects():
             if e.attr == "_books":
-                ck.check(f.short in allowed, "OWN", "S2.books-owner", f.short, e.loc, f"_books touched by accessor {f.short}",
+                ck.check(all(g.short in allowed for g in an.attributed(f)), "OWN", "S2.books-owner", f.short, e.loc, f"_books touched by accessor {f.short}",
                          f"{f.short} touches Exchange._books directly; allowed: {sorted(allowed)}", construct=stmt_text(e.node))
     # per-key fresh books
     fi = an.fa("Exchange.__init__")
